@@ -153,9 +153,13 @@ func policyMenu() map[string]*networkv1.NetworkPolicy {
 		"in-shared-peer": np("ns1", "in-shared-peer", sel("app", "web"), tIn, []networkv1.NetworkPolicyIngressRule{
 			{From: []networkv1.NetworkPolicyPeer{peerBlock("10.9.0.0/16", "10.9.1.0/24"), peerBlock("172.16.0.0/16")}, Ports: []networkv1.NetworkPolicyPort{port(corev1.ProtocolTCP, 80)}},
 			{From: []networkv1.NetworkPolicyPeer{peerBlock("10.9.0.0/16", "10.9.1.0/24")}, Ports: []networkv1.NetworkPolicyPort{port(corev1.ProtocolTCP, 81)}}}, nil),
-		"in-ns2":        np("ns2", "in-ns2", sel("app", "web"), tIn, []networkv1.NetworkPolicyIngressRule{{From: []networkv1.NetworkPolicyPeer{peerPod("role", "client")}}}, nil),
-		"in-ports-only": np("ns1", "in-ports-only", sel("app", "web"), tIn, []networkv1.NetworkPolicyIngressRule{{Ports: []networkv1.NetworkPolicyPort{port(corev1.ProtocolTCP, 80)}}}, nil),
-		"in-ns-and-pod": np("ns1", "in-ns-and-pod", sel("app", "web"), tIn, []networkv1.NetworkPolicyIngressRule{{From: []networkv1.NetworkPolicyPeer{{NamespaceSelector: sel("team", "b"), PodSelector: sel("role", "client")}}}}, nil),
+		// a rule whose first pod-selector peer selects nobody and whose second one selects the clients; a ports-only rule in
+		// front of a rule with a selector peer (rule index and set index differ)
+		"in-two-podsel":        np("ns1", "in-two-podsel", sel("app", "web"), tIn, []networkv1.NetworkPolicyIngressRule{{From: []networkv1.NetworkPolicyPeer{peerPod("role", "nobody"), peerPod("role", "client")}}}, nil),
+		"in-ports-then-podsel": np("ns1", "in-ports-then-podsel", sel("app", "web"), tIn, []networkv1.NetworkPolicyIngressRule{{Ports: []networkv1.NetworkPolicyPort{port(corev1.ProtocolTCP, 81)}}, {From: []networkv1.NetworkPolicyPeer{peerPod("role", "client")}, Ports: []networkv1.NetworkPolicyPort{port(corev1.ProtocolTCP, 80)}}}, nil),
+		"in-ns2":               np("ns2", "in-ns2", sel("app", "web"), tIn, []networkv1.NetworkPolicyIngressRule{{From: []networkv1.NetworkPolicyPeer{peerPod("role", "client")}}}, nil),
+		"in-ports-only":        np("ns1", "in-ports-only", sel("app", "web"), tIn, []networkv1.NetworkPolicyIngressRule{{Ports: []networkv1.NetworkPolicyPort{port(corev1.ProtocolTCP, 80)}}}, nil),
+		"in-ns-and-pod":        np("ns1", "in-ns-and-pod", sel("app", "web"), tIn, []networkv1.NetworkPolicyIngressRule{{From: []networkv1.NetworkPolicyPeer{{NamespaceSelector: sel("team", "b"), PodSelector: sel("role", "client")}}}}, nil),
 		// the same port number under both protocols; a port without protocol (TCP) next to the same number under UDP
 		"in-port-both-protos": np("ns1", "in-port-both-protos", sel("app", "web"), tIn, []networkv1.NetworkPolicyIngressRule{{From: []networkv1.NetworkPolicyPeer{peerBlock("10.9.0.0/16", "10.9.1.0/24")}, Ports: []networkv1.NetworkPolicyPort{port(corev1.ProtocolTCP, 53), port(corev1.ProtocolUDP, 53), port(corev1.ProtocolTCP, 81)}}}, nil),
 		"eg-port-nil-proto":   np("ns1", "eg-port-nil-proto", sel("app", "db"), tEg, nil, []networkv1.NetworkPolicyEgressRule{{Ports: []networkv1.NetworkPolicyPort{portNoProto(80), port(corev1.ProtocolUDP, 80), port(corev1.ProtocolUDP, 53)}}}),
